@@ -14,6 +14,10 @@ The partition includes user classes with partial or inconsistent rich-comparison
 __le__, a str subclass with its own equality or order, a container whose __contains__ disagrees with its
 iteration or whose __iter__ raises) and exception classes matched through a metaclass hook or ABC registration
 (the interpreter matches along the MRO only).  String-distance magnitudes are not decided.
+Further clauses (added later): Byte-string distances are also evaluated for non-UTF-8 operands; the partition
+includes user classes with partial / inconsistent rich-comparison protocols, str subclasses with their own
+comparison, containers whose __contains__ disagrees with iteration, and exception classes with a metaclass
+hook or ABC registration (MRO oracle).
 """
 
 from __future__ import annotations
